@@ -998,7 +998,7 @@ fn run_enforce(s: &Scen, o: &mut Outcome) -> Result<(), Failure> {
         // not, which is not judged) must not leave anything behind for the call that is judged
         if warm_up {
             let mut client = vt::raw_client::RawClient::new(ch.clone());
-            let mut req = Request::new(b"warm-up".to_vec());
+            let mut req = Request::new(b"\x00warm-up call, not the one that is judged\x00".to_vec());
             req.set_timeout(Duration::from_millis(1));
             let _ = client.unary(req).await;
             rt::quiesce().await;
@@ -1027,7 +1027,7 @@ fn run_enforce(s: &Scen, o: &mut Outcome) -> Result<(), Failure> {
     );
     let mut log = sh.log.lock().unwrap().clone();
     // the warm-up call is not the call that is judged
-    log.retain(|l| l.msgs.first().map(|m| m != b"warm-up").unwrap_or(true));
+    log.retain(|l| l.msgs.first().map(|m| m != b"\x00warm-up call, not the one that is judged\x00").unwrap_or(true));
     if expect_cut {
         let (_, t_ns) = t.unwrap();
         let st = match first_err {
